@@ -371,6 +371,8 @@ def l_fixed_values(F, R):
                     dyn.append((args[0], args[1]))
                     return ok(Sym("ENCODED"))
                 if r == "common::utils::total_len":
+                    if isinstance(args[0], int) and not isinstance(args[0], bool):
+                        return None          # a constant remaining length: evaluate total_len itself
                     return ok(("total_len", vkey(args[0])))
                 if node["fn"].get("name") == "encode_len" and (node["fn"].get("trait") or "").endswith("Encodable"):
                     return ("encode_len", vkey(args[0]))
@@ -499,6 +501,17 @@ def h_empty_subscription(F, R):
             raise AnchorLost("%s cannot be evaluated: %s" % (fid, e))
         k = result_kind(r)
         good = k[0] == "err" and isinstance(k[1], Adt) and k[1].variant == "EmptySubscription" and not reads
+        # a remaining length that does not even cover the identifier (and the property block) is a length error, not an empty list
+        del reads[:]
+        small = 1 if fam == "v3" else _hdr("v5", typ, 2)
+        try:
+            r2 = PE(F, call_hook=hook, cond_hook=TRY_OK).call_fn(fid, [Sym("READER"), small])
+            k2 = result_kind(r2)
+        except Undecided as e:
+            k2 = ("undecided", str(e))
+        R.check(k2[0] == "err" and isinstance(k2[1], Adt) and k2[1].variant == "InvalidRemainingLength", "H-raise", "short-frame/%s/%s" % (fam, typ),
+                "%s with a remaining length smaller than the packet identifier%s gives %r (documented: InvalidRemainingLength)" % (
+                    fid, " plus the property block" if fam == "v5" else "", k2[1] if len(k2) > 1 else k2), where=fid)
         R.check(good, "H-raise", "empty-subscription/%s/%s" % (fam, typ),
                 "%s on a frame that ends after the packet identifier%s returns %r after reading %s" % (fid, " and an empty property block" if fam == "v5" else "", r, reads), where=fid)
 
@@ -1196,6 +1209,9 @@ def _byte_of(term, V, n):
     v = _unsym(vkey(V))
     if isinstance(t, tuple) and len(t) == 4 and t[0] == "be" and _unsym(t[1]) == v and t[3] == n:
         return t[2]
+    # byte k (k < n) of `x as uN` is byte k of x: widening / narrowing casts of the value itself do not matter below n bytes
+    while isinstance(v, tuple) and v and v[0] == "cast":
+        v = _unsym(v[1])
     # (V >> 8k) as u8, ((V >> 8k) & 0xFF) as u8, (V / 256^k) % 256 ...
     while isinstance(t, tuple) and t and t[0] == "cast":
         t = _unsym(t[1])
@@ -1359,3 +1375,5 @@ def t_prims(F, R):
         good = [_byte_of(flat[0], L16, 2), _byte_of(flat[1], L16, 2)] == [0, 1]
     R.check(good, "T-prims", "write_bytes", "write_bytes writes %s (expected the length as a big-endian u16, then the data, whole)" % ([repr(x) for x in flat],), where=U + "write_bytes")
     R.floor("T-prims", "primitives evaluated", n, 8)
+    # read_string is read_bytes followed by UTF-8 validation of exactly that buffer, which it returns as the String
+    h_utf8_values(F, R)
